@@ -75,3 +75,9 @@ var (
 	_ Gen[A]
 	_ Gen[string]
 )
+
+// Chain is a singly linked list: a pointer field of the struct's own type (C10: values nested to any depth).
+type Chain struct {
+	N    int
+	Next *Chain
+}
